@@ -28,13 +28,14 @@ var Points = []string{
 }
 
 type Policy struct {
-	Mode      int     // 0 none, 1 random delays, 2 single hold
+	Mode      int     // 0 none, 1 random delays, 2 single hold, 3 every passage of the hold points is held
 	Seed      int64   //
 	P         float64 // probability of a delay at a point (mode 1)
 	MaxUs     int     // maximum random delay in microseconds (mode 1)
 	HoldPoint string  // mode 2
 	HoldK     int     // mode 2: which passage (1-based)
-	HoldUs    int     // mode 2: how long
+	HoldUs    int     // mode 2, 3: how long
+	HoldSet   []string // mode 3: the points held at every passage
 }
 
 var (
@@ -74,6 +75,12 @@ func hook(point string, args ...any) {
 			}
 			d := 20 + int((x>>20)%uint64(max))
 			time.Sleep(time.Duration(d) * time.Microsecond)
+		}
+	case 3:
+		for _, h := range p.HoldSet {
+			if h == point {
+				time.Sleep(time.Duration(p.HoldUs) * time.Microsecond)
+			}
 		}
 	case 2:
 		if point == p.HoldPoint && k == p.HoldK {
@@ -119,6 +126,7 @@ func Seen() map[string]int {
 // ForRun derives the policy of one run from a job-level perturbation class.
 //
 //	0 none; 1 random delays; 2 single hold (point and passage drawn from the seed);
+//	3 every passage of the given points held;
 //	9 mixed: run index decides among the three.
 func ForRun(class int, seed int64, run int, points []string) Policy {
 	if len(points) == 0 {
@@ -142,6 +150,10 @@ func ForRun(class int, seed int64, run int, points []string) Policy {
 		return Policy{Mode: 1, Seed: seed + int64(run), P: 0.12, MaxUs: 1200}
 	case 2:
 		return Policy{Mode: 2, Seed: seed, HoldPoint: points[x%uint64(len(points))], HoldK: 1 + int((x>>16)%3), HoldUs: 4000}
+	case 3:
+		// every passage of the given points is held (1..4 ms, by run): everything that happens
+		// behind those points is late with respect to the driver's next steps
+		return Policy{Mode: 3, Seed: seed, HoldSet: points, HoldUs: 1000 * (1 + int(x>>16)%4)}
 	case 9:
 		return ForRun(int(x>>40)%3, seed, run, points)
 	}
